@@ -278,8 +278,12 @@ static void spline_monitor(Report & rep)
         L vs0 = 1e-3L;
         for (int k = 0; k < 5; ++k) vs0 = std::max(vs0, orc::maxabs(M.eval(x.model, tm * (k + 0.5L) / 5, 0, 0).vel));
         const L delta = 1e-6L * std::max<L>(tm, 1e-3L), allow = 4 * vs0 * delta;
-        L es = std::min(orc::err_rel1(sl, M.eval(x.model, 0, +1, tie0).G), orc::err_rel1(sl, M.eval(x.model, 0, -1, tie0).G));
-        L ee = std::min(orc::err_rel1(el_, M.eval(x.model, tm, -1, tie0).G), orc::err_rel1(el_, M.eval(x.model, tm, +1, tie0).G));
+        L es = INFINITY, ee = INFINITY;
+        for (int sd : {-1, +1})
+          for (int es2 : {-1, +1}) {
+            es = std::min(es, orc::err_rel1(sl, M.eval(x.model, 0, sd, tie0, es2).G));
+            ee = std::min(ee, orc::err_rel1(el_, M.eval(x.model, tm, sd, tie0, es2).G));
+          }
         if (tm > delta) {
           es = std::min(es, std::max<L>(0, orc::err_rel1(sl, M.eval(x.model, delta, 0, tie0).G) - allow));
           ee = std::min(ee, std::max<L>(0, orc::err_rel1(el_, M.eval(x.model, tm - delta, 0, tie0).G) - allow));
